@@ -281,8 +281,8 @@ ssize_t _whawty_write_data(int sock, const void* data, size_t len, int timeout)
       return ret;
     }
 
-    errno = 0; // write() does not touch errno on success, see check below
-    ssize_t nwritten = write(sock, (void*)(data + offset), len - offset);
+    errno = 0; // send() does not touch errno on success, see check below
+    ssize_t nwritten = send(sock, (void*)(data + offset), len - offset, MSG_NOSIGNAL);
     if(nwritten < 0 || (nwritten == 0 && errno != EINTR)) {
       return offset;
     }
